@@ -31,10 +31,8 @@ def Win.inBank (bank : Nat) (w : Win) : Prop := ∃ k, k * bank ≤ w.lo ∧ w.l
 /-- "no sample small enough to fit a bank crosses a bank boundary" -/
 def bankRule (bank : Nat) (w : Win) : Prop := w.len ≤ bank → w.inBank bank
 
-instance (a : Win) (x : Nat) : Decidable (a.has x) := by unfold Win.has; exact inferInstance
-
 /-- number of pieces (allocated regions and gaps) that contain byte `x` -/
-def cover (pieces : List Win) (x : Nat) : Nat := (pieces.map fun p => if p.has x then 1 else 0).sum
+def cover (pieces : List Win) (x : Nat) : Nat := (pieces.map fun p => if p.lo ≤ x ∧ x < p.lo + p.len then 1 else 0).sum
 
 def total (pieces : List Win) : Nat := (pieces.map (·.len)).sum
 
